@@ -76,6 +76,10 @@ func (User) IsNode()            {}
 func (u User) GetID() string    { return u.ID }
 func (User) IsPet()             {}
 
+type Box struct {
+	ID string
+}
+
 type Item struct {
 	ID    string
 	Title string
